@@ -5,7 +5,7 @@
 (*   open fails                          -> exit 1, nothing written        *)
 (*   every generate flag false           -> exit 0, nothing written        *)
 (*   planning fails (profile violation)  -> exit 1, nothing written        *)
-(*   plan replaces an existing certificate and the answer is not `y`       *)
+(*   plan replaces an existing artifact file and the answer is not `y`     *)
 (*                                        -> exit 0, nothing written        *)
 (*   otherwise the planned artifacts are written; exit 1 iff that fails    *)
 (* Flags: -m and -c default to true, -e -o -a to false.                    *)
@@ -28,12 +28,14 @@ MustWrite(o) ==
   LET fl == FlagSet(o.flags) IN
   /\ o.openOK /\ o.validOK /\ fl # {}
   /\ Reasons(FactsOf(o.facts), fl, FALSE) # {}
-  /\ (o.facts.cert => o.answer = "y")
+  /\ (o.facts.exists => o.answer = "y")
 MustNotWrite(o) ==
   LET fl == FlagSet(o.flags) IN
   \/ ~o.openOK \/ ~o.validOK \/ fl = {}
   \/ AllowedDecision(FactsOf(o.facts), fl, FALSE) = {FALSE}
-  \/ (o.facts.cert /\ o.answer = "other")
+  \* "an existing certificate file is replaced only after the user answers y": the FILE is what the user loses, whether
+  \* gopki can read a certificate out of it or not (another label, a byte order mark in front, ...)
+  \/ (o.facts.exists /\ o.answer = "other")
 
 Judge(o) ==
      (IF MustWrite(o) /\ ~o.rootChanged THEN {"the planned certificate was not (re)generated"} ELSE {})
